@@ -159,171 +159,191 @@ pub fn __as_f64<T: ToF64>(x: T) -> (r: f64) ensures r == x.to_f64_spec() { x.__t
 // R13: identity on f64 (see rule R13 of the extractor)
 pub fn __idf(x: f64) -> (r: f64) ensures r == x { x }
 
-// ---- prelude fragment: ideal.rs ----
-// Floating point, layer 2 ("idealised real" mode of DESIGN.md 3.2): machine arithmetic treated as
-// mathematical.  rv maps a float to the real it denotes; rounding, overflow, NaN and signed zero are
-// ignored.  Used only where the property is a statement of real arithmetic.
-pub uninterp spec fn rv(x: f64) -> real;
-pub broadcast axiom fn ax_rv_add(a: f64, b: f64) ensures rv(#[trigger] fadd(a, b)) == rv(a) + rv(b);
-pub broadcast axiom fn ax_rv_sub(a: f64, b: f64) ensures rv(#[trigger] fsub(a, b)) == rv(a) - rv(b);
-pub broadcast axiom fn ax_rv_mul(a: f64, b: f64) ensures rv(#[trigger] fmul(a, b)) == rv(a) * rv(b);
-pub broadcast axiom fn ax_rv_div(a: f64, b: f64) ensures rv(b) != 0real ==> rv(#[trigger] fdiv(a, b)) == rv(a) / rv(b);
-pub broadcast axiom fn ax_rv_neg(a: f64) ensures rv(#[trigger] fneg(a)) == 0real - rv(a);
-pub broadcast axiom fn ax_rv_cmp(a: f64, b: f64)
-    ensures #[trigger] fcmp(a, b) == (if rv(a) < rv(b) { Some(core::cmp::Ordering::Less) }
-        else if rv(a) == rv(b) { Some(core::cmp::Ordering::Equal) } else { Some(core::cmp::Ordering::Greater) });
-pub broadcast axiom fn ax_rv_eq(a: f64, b: f64) ensures #[trigger] feq(a, b) == (rv(a) == rv(b));
-pub broadcast axiom fn ax_rv_max(a: f64, b: f64) ensures rv(#[trigger] fmaxf(a, b)) == (if rv(a) >= rv(b) { rv(a) } else { rv(b) });
-pub broadcast axiom fn ax_rv_min(a: f64, b: f64) ensures rv(#[trigger] fminf(a, b)) == (if rv(a) <= rv(b) { rv(a) } else { rv(b) });
-pub axiom fn ax_rv_lits()
-    ensures rv(0.0f64) == 0real, rv(1.0f64) == 1real, rv(2.0f64) == 2real, rv(0.5f64) * 2real == 1real;
-pub broadcast group ideal {
-    ax_rv_add, ax_rv_sub, ax_rv_mul, ax_rv_div, ax_rv_neg, ax_rv_cmp, ax_rv_eq, ax_rv_max, ax_rv_min
-}
-// (idealised) integer-to-float casts are exact
-pub broadcast axiom fn ax_rv_u64(n: u64) ensures rv(#[trigger] u64_to_f64(n)) == n as real;
-pub broadcast axiom fn ax_rv_usize(n: usize) ensures rv(#[trigger] usize_to_f64(n)) == n as real;
-pub broadcast group ideal_casts { ax_rv_u64, ax_rv_usize }
+use vstd::std_specs::iter::{zip_iter_snd, zip_iter_fst};
 
-// ---- prelude fragment: iter_ext.rs ----
-// R7: provided Iterator methods vstd does not specify, as external wrappers whose contracts restate
-// the std documentation over the iterator's remaining() sequence.
-// Iterator::reduce(f): None for an empty iterator, otherwise the left fold of f over the items.
-// (f is assumed deterministic: its postcondition determines its result -- true for fn items such as
-// f64::max whose assume_specification is an equation.)
-pub open spec fn fapply<F: Fn(f64, f64) -> f64>(f: F, a: f64, b: f64) -> f64 {
-    choose|r: f64| f.ensures((a, b), r)
+// ---- extracted from src/lib.rs: enum PlayerNum ----
+#[derive(Copy, Clone)]
+pub enum PlayerNum {
+    /// The first player
+    One,
+    /// The second player
+    Two,
 }
-pub open spec fn rfold<F: Fn(f64, f64) -> f64>(f: F, s: Seq<f64>) -> f64
-    decreases s.len()
-{
-    if s.len() <= 1 { s[0] } else { fapply(f, rfold(f, s.drop_last()), s.last()) }
+
+// PlayerNum::ind / ind_mut use slice patterns in a `match` (rejected by this Verus); they are kept
+// external with the two-case spec, and that spec is discharged against the real bodies by the
+// loop-free Kani harness `playernum_ind` (so it is cited, not assumed).
+impl PlayerNum {
+    #[verifier::external_body]
+    pub fn ind<'a, T>(&self, arr: &'a [T; 2]) -> (r: &'a T)
+        ensures *r == (match *self { PlayerNum::One => arr[0], PlayerNum::Two => arr[1] })
+    { unimplemented!() }
+
+    #[verifier::external_body]
+    pub fn ind_mut<'a, T>(&self, arr: &'a mut [T; 2]) -> (r: &'a mut T)
+        ensures
+            *r == (match *self { PlayerNum::One => old(arr)[0], PlayerNum::Two => old(arr)[1] }),
+            match *self {
+                PlayerNum::One => final(arr)[0] == *final(r) && final(arr)[1] == old(arr)[1],
+                PlayerNum::Two => final(arr)[1] == *final(r) && final(arr)[0] == old(arr)[0],
+            },
+    { unimplemented!() }
 }
-#[verifier::external_body]
-pub fn __reduce<I: Iterator<Item = f64>, F: Fn(f64, f64) -> f64>(it: I, f: F) -> (r: Option<f64>)
-    requires it.obeys_prophetic_iter_laws(),
-    ensures
-        it.remaining().len() == 0 ==> r is None,
-        it.remaining().len() > 0 ==> r == Some(rfold(f, it.remaining())),
-{ unimplemented!() }
-// the fn ITEMS f64::max / f64::min used as values: their call postcondition is the same equation
-// as their assume_specification (Verus does not derive this for function items by itself)
-pub axiom fn ax_fn_items()
-    ensures
-        forall|a: f64, b: f64, r: f64| #[trigger] f64::max.ensures((a, b), r) == (r == fmaxf(a, b)),
-        forall|a: f64, b: f64, r: f64| #[trigger] f64::min.ensures((a, b), r) == (r == fminf(a, b));
-// Iterator::sum over &f64 items: the left fold of `+` starting from the additive identity the
-// standard library uses (an unspecified zero constant here; its real value is 0)
-pub uninterp spec fn fsum_init() -> f64;
-pub open spec fn fsum_ref(s: Seq<&f64>, k: int) -> f64 decreases k {
-    if k <= 0 { fsum_init() } else { fadd(fsum_ref(s, k - 1), *s[k - 1]) }
+
+// ---- extracted from src/lib.rs: enum Node ----
+pub enum Node {
+    /// A terminal node, the game is over the payoff to player one
+    Terminal(f64),
+    /// A chance node, the game advances independent of player action
+    Chance(Chance),
+    /// a node in the tree where the player can choose between different actions
+    Player(Player),
 }
-pub open spec fn fsum(s: Seq<f64>, k: int) -> f64 decreases k {
-    if k <= 0 { fsum_init() } else { fadd(fsum(s, k - 1), s[k - 1]) }
+
+// ---- extracted from src/lib.rs: struct Chance ----
+pub struct Chance {
+    pub outcomes: Box<[Node]>,
+    pub infoset: usize,
 }
-#[verifier::external_body]
-pub fn __sum<'a, I: Iterator<Item = &'a f64>>(it: I) -> (r: f64)
-    requires it.obeys_prophetic_iter_laws(),
-    ensures r == fsum_ref(it.remaining(), it.remaining().len() as int),
-{ unimplemented!() }
-// summing references to the elements of a sequence is summing the sequence (fires automatically)
-pub broadcast proof fn lemma_fsum_ref_is_fsum(rem: Seq<&f64>, s: Seq<f64>, k: int)
-    requires 0 <= k <= rem.len(), k <= s.len(), forall|i: int| 0 <= i < k ==> *rem[i] == s[i],
-    ensures #![trigger fsum_ref(rem, k), fsum(s, k)] fsum_ref(rem, k) == fsum(s, k),
+
+// ---- extracted from src/lib.rs: struct Player ----
+pub struct Player {
+    pub num: PlayerNum,
+    pub infoset: usize,
+    pub actions: Box<[Node]>,
+}
+
+pub trait Add {
+    #[verifier::prophetic]
+    spec fn added(self, other: f64) -> bool;
+    fn add(self, other: f64)
+        ensures self.added(other);
+}
+// counterfactual weight of the acting player's regrets: opponent reach x chance reach, negated for
+// player two (payoffs are player one's)
+pub open spec fn mult_spec(num: PlayerNum, p_chance: f64, p_player: [f64; 2]) -> f64 {
+    match num { PlayerNum::One => fmul(p_chance, p_player[1]), PlayerNum::Two => fmul(fneg(p_player[0]), p_chance) }
+}
+// reach vector handed to the continuation of action a: only the acting player's entry is multiplied by sigma_a
+pub open spec fn pnext_spec(num: PlayerNum, p_player: [f64; 2], prob: f64) -> [f64; 2] {
+    match num { PlayerNum::One => [fmul(p_player[0], prob), p_player[1]], PlayerNum::Two => [p_player[0], fmul(p_player[1], prob)] }
+}
+pub open spec fn exp_one(strat: Seq<f64>, us: Seq<f64>, k: int) -> f64 decreases k {
+    if k <= 0 { 0.0f64 } else { fadd(exp_one(strat, us, k - 1), fmul(strat[k - 1], us[k - 1])) }
+}
+pub open spec fn exp_cf(strat: Seq<f64>, us: Seq<f64>, mult: f64, k: int) -> f64 decreases k {
+    if k <= 0 { 0.0f64 } else { fadd(exp_cf(strat, us, mult, k - 1), fmul(fmul(us[k - 1], mult), strat[k - 1])) }
+}
+pub proof fn lemma_exp_prefix(st: Seq<f64>, a: Seq<f64>, b: Seq<f64>, m: f64, k: int)
+    requires 0 <= k <= a.len(), k <= b.len(), forall|i: int| 0 <= i < k ==> a[i] == b[i],
+    ensures exp_one(st, a, k) == exp_one(st, b, k), exp_cf(st, a, m, k) == exp_cf(st, b, m, k),
     decreases k
 {
-    if k > 0 { lemma_fsum_ref_is_fsum(rem, s, k - 1); }
+    if k > 0 { lemma_exp_prefix(st, a, b, m, k - 1); }
 }
 
-// ---- prelude fragment: iter_ext_ideal.rs ----
-// (idealised) the additive identity Iterator::sum starts from denotes 0
-pub axiom fn ax_rv_sum_init() ensures rv(fsum_init()) == 0real;
+// ---- extracted from src/solve/vanilla.rs: impl Add for &mut f64 ----
+impl Add for &mut f64 {
+    #[verifier::prophetic]
+    open spec fn added(self, other: f64) -> bool { *final(self) == fadd(*self, other) }
+fn add(self, other: f64) {
+broadcast use fl;
+proof { ax_obeys(); }
 
-pub assume_specification<T: Clone> [<[T]>::fill] (s: &mut [T], v: T)
-    ensures final(s)@.len() == old(s)@.len(), forall|i: int| 0 <= i < old(s)@.len() ==> #[trigger] final(s)@[i] == v;
-
-// sums of idealised values and the normalisation lemmas shared by avg_strat / import / truncate units
-pub open spec fn rsum(s: Seq<f64>, k: int) -> real decreases k {
-    if k <= 0 { 0real } else { rsum(s, k - 1) + rv(s[k - 1]) }
-}
-pub proof fn lemma_fsum_rsum(s: Seq<f64>, k: int)
-    requires 0 <= k <= s.len(),
-    ensures rv(fsum(s, k)) == rsum(s, k),
-    decreases k
-{
-    broadcast use ideal;
-    ax_rv_sum_init();
-    if k > 0 { lemma_fsum_rsum(s, k - 1); }
-}
-// sum of x_i / n over the first k entries equals (sum of x_i) / n
-pub proof fn lemma_rsum_div(a: Seq<f64>, b: Seq<f64>, n: real, k: int)
-    requires 0 <= k <= a.len(), a.len() == b.len(), n != 0real, forall|i: int| 0 <= i < a.len() ==> rv(#[trigger] b[i]) == rv(a[i]) / n,
-    ensures rsum(b, k) == rsum(a, k) / n,
-    decreases k
-{
-    if k <= 0 {
-        assert(0real / n == 0real) by(nonlinear_arith) requires n != 0real;
-    } else {
-        lemma_rsum_div(a, b, n, k - 1);
-        assert(rv(b[k - 1]) == rv(a[k - 1]) / n);
-        assert(rsum(b, k) == rsum(b, k - 1) + rv(b[k - 1]));
-        assert(rsum(a, k) == rsum(a, k - 1) + rv(a[k - 1]));
-        assert(rsum(a, k - 1) / n + rv(a[k - 1]) / n == (rsum(a, k - 1) + rv(a[k - 1])) / n) by(nonlinear_arith) requires n != 0real;
+        *self = *self + ( other);
     }
 }
 
-// ---- extracted from src/solve/data.rs: fn avg_strat ----
-pub fn avg_strat(cum_strat: &mut [f64]) 
-    requires
-        old(cum_strat)@.len() >= 1,
+// ---- extracted from src/solve/vanilla.rs: fn recurse_player ----
+pub fn recurse_player<F: Fn(&Node, [f64; 2]) -> f64>(
+    player: &Player,
+    p_chance: f64,
+    p_player: [f64; 2],
+    strat: &[f64],
+    cum_regret: &mut [f64],
+    rec: F,
+) -> (out: (f64, f64)) 
     ensures
-        final(cum_strat)@.len() == old(cum_strat)@.len(),
-        // nothing accumulated: exactly uniform
-        rsum(old(cum_strat)@, old(cum_strat)@.len() as int) == 0real ==>
-            forall|i: int| 0 <= i < old(cum_strat)@.len() ==> rv(#[trigger] final(cum_strat)@[i]) == 1real / (old(cum_strat)@.len() as real), // @ob C05.V.avg_strat.uniform_when_empty
-        // otherwise every entry is divided by the total ...
-        rsum(old(cum_strat)@, old(cum_strat)@.len() as int) != 0real ==>
-            forall|i: int| 0 <= i < old(cum_strat)@.len() ==> rv(#[trigger] final(cum_strat)@[i]) == rv(old(cum_strat)@[i]) / rsum(old(cum_strat)@, old(cum_strat)@.len() as int), // @ob C05.V.avg_strat.normalised
-        // ... so the returned action probabilities sum to one
-        rsum(old(cum_strat)@, old(cum_strat)@.len() as int) != 0real ==> rsum(final(cum_strat)@, old(cum_strat)@.len() as int) == 1real, // @ob C05.V.avg_strat.sums_to_one
+        final(cum_regret)@.len() == old(cum_regret)@.len(),
+        exists|us: Seq<f64>| us.len() == player.actions@.len()
+            // u_a is what the continuation returned for action a, called with the reach vector in which
+            // ONLY the acting player's entry is multiplied by sigma_a
+            && (forall|a: int| 0 <= a < us.len() ==> rec.ensures((&#[trigger] player.actions@[a], pnext_spec(player.num, p_player, strat@[a])), us[a]))
+            // every action's cumulative regret receives u_a times the counterfactual weight
+            && (forall|a: int| 0 <= a < us.len() ==> #[trigger] final(cum_regret)@[a] == fadd(old(cum_regret)@[a], fmul(us[a], mult_spec(player.num, p_chance, p_player))))
+            // returned: (sum_a sigma_a u_a, sum_a u_a mult sigma_a)
+            && out.0 == exp_one(strat@, us, us.len() as int)
+            && out.1 == exp_cf(strat@, us, mult_spec(player.num, p_chance, p_player), us.len() as int), // @ob C08.V.recurse_player.update
 {
-broadcast use fl; broadcast use ideal;
-proof { ax_obeys(); ax_rv_lits(); ax_rv_sum_init(); }
-broadcast use ideal_casts;
-let ghost s0 = cum_strat@;
-let ghost n = cum_strat@.len();
-proof { lemma_fsum_rsum(s0, n as int); }
-broadcast use lemma_fsum_ref_is_fsum;
-
-    let norm: f64 = __sum(cum_strat.iter());
-    if norm == 0.0 {
-        cum_strat.fill(1.0 / __as_f64(cum_strat.len()));
-    } else {
-        proof {
-    broadcast use lemma_fsum_ref_is_fsum;
-    assert(fsum(s0, n as int) == fsum(s0, n as int));
-    assert(norm == fsum(s0, n as int));
-}
-for prob in it: cum_strat.iter_mut() 
-invariant
-    it.snapshot@.remaining().len() == n, 0 <= it.index@ <= n,
-    forall|i: int| 0 <= i < n ==> *(#[trigger] it.snapshot@.remaining()[i]) == s0[i],
-    rv(norm) == rsum(s0, n as int), rv(norm) != 0real,
-    forall|i: int| 0 <= i < it.index@ ==> rv(*final(#[trigger] it.snapshot@.remaining()[i])) == rv(s0[i]) / rv(norm),
-ensures
-    forall|i: int| 0 <= i < n ==> rv(*final(#[trigger] it.snapshot@.remaining()[i])) == rv(s0[i]) / rv(norm),
-{
-broadcast use fl; broadcast use ideal;
-proof { ax_obeys(); ax_rv_lits(); }
-
-            *prob = *prob / ( norm);
-        }
+broadcast use fl;
 proof {
-    lemma_rsum_div(s0, cum_strat@, rv(norm), n as int);
-    assert(rsum(s0, n as int) / rv(norm) == 1real) by(nonlinear_arith) requires rv(norm) == rsum(s0, n as int), rv(norm) != 0real;
+    ax_obeys();
+    assume(player.actions@.len() == strat@.len() && strat@.len() == cum_regret@.len());
+    assume(forall|n: &Node, p: [f64; 2]| rec.requires((n, p)));
+}
+let ghost n = cum_regret@.len();
+let ghost st = strat@;
+let ghost c0 = cum_regret@;
+let ghost acts = player.actions@;
+let ghost mut us: Seq<f64> = Seq::empty();
+
+    let mult = match (player.num, p_player) {
+        (PlayerNum::One, __a0) => { let two = __a0[1]; p_chance * two },
+        (PlayerNum::Two, __a1) => { let one = __a1[0]; __neg(one) * p_chance },
+    };
+
+    let mut expected_one = 0.0;
+    let mut expected = 0.0;
+    proof { assert(mult == mult_spec(player.num, p_chance, p_player)); }
+for ((next, prob), cum_reg) in it: player
+        .actions
+        .iter()
+        .zip(strat.iter())
+        .zip(cum_regret.iter_mut())
+    
+invariant
+    it.snapshot@.remaining().len() == n, n == acts.len(), n == st.len(), n == c0.len(),
+    0 <= it.index@ <= n, us.len() == it.index@,
+    mult == mult_spec(player.num, p_chance, p_player),
+    zip_iter_snd(it.snapshot@).remaining().len() == n,
+    forall|i: int| 0 <= i < n ==> (it.snapshot@.remaining()[i]).1 == #[trigger] zip_iter_snd(it.snapshot@).remaining()[i],
+    forall|i: int| 0 <= i < n ==> *((#[trigger] it.snapshot@.remaining()[i]).0).0 == acts[i]
+        && *((it.snapshot@.remaining()[i]).0).1 == st[i] && *(it.snapshot@.remaining()[i]).1 == c0[i],
+    forall|nd: &Node, p: [f64; 2]| rec.requires((nd, p)),
+    forall|i: int| 0 <= i < it.index@ ==> rec.ensures((&#[trigger] acts[i], pnext_spec(player.num, p_player, st[i])), us[i]),
+    forall|i: int| 0 <= i < it.index@ ==> *final((#[trigger] it.snapshot@.remaining()[i]).1) == fadd(c0[i], fmul(us[i], mult)),
+    expected_one == exp_one(st, us, it.index@ as int),
+    expected == exp_cf(st, us, mult, it.index@ as int),
+ensures
+    forall|i: int| 0 <= i < n ==> *final(#[trigger] zip_iter_snd(it.snapshot@).remaining()[i]) == fadd(c0[i], fmul(us[i], mult)),
+{
+broadcast use fl;
+proof { ax_obeys(); }
+let ghost us0 = us;
+
+        let mut p_next = p_player;
+        *player.num.ind_mut(&mut p_next) = *player.num.ind_mut(&mut p_next) * ( prob);
+        let util_one = rec(next, p_next);
+        let util = util_one * mult;
+        expected_one = expected_one + ( prob * util_one);
+        expected = expected + ( util * prob);
+        cum_reg.add(util);
+    
+proof {
+    us = us0.push(util_one);
+    assert(forall|i: int| 0 <= i < us0.len() ==> us[i] == us0[i]);
+    lemma_exp_prefix(st, us0, us, mult, us0.len() as int);
+    assert(p_next == pnext_spec(player.num, p_player, *prob));
+}
+}
+proof {
+    let w = us;
+    assert(w.len() == player.actions@.len() && acts == player.actions@ && st == strat@);
+    assert(forall|a: int| 0 <= a < w.len() ==> rec.ensures((&#[trigger] player.actions@[a], pnext_spec(player.num, p_player, strat@[a])), w[a]));
+    assert(forall|a: int| 0 <= a < w.len() ==> #[trigger] cum_regret@[a] == fadd(c0[a], fmul(w[a], mult)));
 }
 
-    }
+    (expected_one, expected)
 }
 
 
@@ -331,7 +351,7 @@ proof {
 pub proof fn __canary_must_fail()
     ensures false, // @ob __canary
 {
-    broadcast use fl; broadcast use ideal; ax_obeys(); ax_rv_lits(); ax_rv_sum_init();
+    broadcast use fl; ax_obeys();
 }
 
 } // verus!
